@@ -34,7 +34,10 @@ LEVEL_TEXT = (
     "map_func_over_blocks (any f, any positional/keyword mix, block count from the first block argument, mismatch "
     "rejected), add_full_reduction (one call on the concatenation without axis, per block with axis; sum/norm^2/max/"
     "min/count/any/all of a concatenation = fold of per-block values), creation routines on nested shapes, pytree "
-    "round trip, dtype invariant. Tables regenerated from source every run and checked by `decide`."
+    "round trip and the contract for placeholder leaves (non-array leaves stored untouched), block assignment, "
+    "scico.random (_add_seed: where key/seed are read, key xor seed, same effective key for every block, returned key "
+    "= split(key)[0]), dtype invariant. Tables (wrapped names; lifted jax-array attributes) regenerated from source "
+    "every run and checked by `decide`."
 )
 LEVEL_NOTE = (
     "Trusted: Lean kernel + Mathlib (axioms propext, Classical.choice, Quot.sound); jax.numpy per-block values, "
@@ -62,7 +65,10 @@ RULE = (
     "array, 0-d, python int/float/complex, str}; methods/properties: every lifted attribute; wrappers on a "
     "recording python function with random positional/keyword block/array mixes and block counts; reductions with/"
     "without axis, 0/1/2 block arguments; creation with nested/flat/int shapes. A case is non-trivial when a block "
-    "array with >= 2 blocks takes part; distinct by (section, name, family, passing, structure, dtype)."
+    "array with >= 2 blocks takes part; distinct by (section, name, family, passing, structure, dtype). Round 2: 23 jax "
+    "transformations of a function of a block array vs the tuple of its blocks; tree_unflatten with 10 kinds of leaf "
+    "lists; x[k] = v for random k in [-n-1, n] and value kinds {same dtype, other dtype, list, numpy}; scico.random: "
+    "wrapped names (all in thorough, 9 in quick) x 12 argument forms x nested/flat shapes."
 )
 ASSUMPTIONS = [
     "jax.numpy / jax.scipy.special / numpy.testing functions are the reference for per-block values (contract)",
@@ -982,6 +988,24 @@ METHOD_SKIP = {"delete", "unsafe_buffer_pointer", "addressable_data", "to_device
 def section_methods(env, ctx, model):
     rng = ctx.rng
     B = env._blockarray
+    # the lists the translator derived by the code's rule (and Lean re-derived: `attrs_ok`) are the running lists
+    attrs = translate_lists.read_attr_tables()
+    ctx.case({"section": "lifted-attributes"}, ("lifted-attributes",))
+    ctx.extra["lifted_attributes"] = {"properties": len(attrs["props"]), "methods": len(attrs["methods"])}
+    if attrs["props"] != list(B.da_props) or attrs["methods"] != list(B.da_methods):
+        x0 = env.BlockArray([env.jnp.ones((2, 3)), env.jnp.ones(3)])
+        diff = sorted(set(attrs["props"]) ^ set(B.da_props)) + sorted(set(attrs["methods"]) ^ set(B.da_methods))
+
+        def attr_oracle(c, diff=diff, x0=x0):
+            for nm in diff:
+                try:
+                    getattr(x0, nm)
+                except AttributeError:
+                    return {"attribute": nm, "on": "BlockArray", "outcome": "AttributeError", "expected": "lifted from the jax array type (per-block values)"}
+            return None
+
+        ctx.disagree("block.lifted-attributes", {"section": "lifted-attributes", "differ": diff}, {"props": list(B.da_props), "methods": list(B.da_methods)},
+                     {"props": attrs["props"], "methods": attrs["methods"]}, oracle=attr_oracle)
     for st in (["b", "g"] if not ctx.thorough else ["a", "b", "c", "d", "e", "f", "g"]):
         for kd in ("x", "c") if ctx.thorough else ("x",):
             x = gen_block(env, rng, st, kd)
@@ -1452,11 +1476,6 @@ def transparency_probes(env):
     return probes
 
 
-KNOWN_FLATTEN = "blockarray-pytree-flatten-placeholders"
-# transformations that flatten a block array holding placeholder leaves again
-FLATTEN_PROBES = {"placeholder-object", "vmap", "hessian", "jacfwd", "jacrev", "jit-lower", "pure_callback"}
-
-
 def section_transparency(env, ctx, model):
     """the property itself on the real code: a block array goes through jax transformations like the tuple of its blocks"""
     for name, thunk in transparency_probes(env):
@@ -1476,7 +1495,7 @@ def section_transparency(env, ctx, model):
             fail = {"transformation": name, "on": "BlockArray([2x2, (3,)])", "outcome": res,
                     "got": be.describe(got) if got is not None else None, "expected (tuple of the blocks)": be.describe(want) if want is not None else None}
             ctx.disagree("block.transparency", {"section": "transparency", "probe": name}, res, "as for the tuple of the blocks",
-                         oracle=lambda c, fail=fail: fail, known_id=KNOWN_FLATTEN if (name in FLATTEN_PROBES and res.startswith("raised")) else None)
+                         oracle=lambda c, fail=fail: fail)
     # the registered unflatten against the model, with placeholder leaves
     jax, jnp, BA = env.jax, env.jnp, env.BlockArray
     cands = [
@@ -1518,13 +1537,92 @@ def section_transparency(env, ctx, model):
             ctx.disagree("block.unflatten", {"section": "unflatten-placeholders", "inputs": tag}, fail["outcome"], "leaves untouched", oracle=lambda c, fail=fail: fail)
 
 
+def section_trees(env, ctx, model):
+    """block arrays nested inside tuples / dicts: `jax.tree_util.tree_unflatten(treedef, leaves)` against the model's
+    recursion (`unflat`) for array leaves, placeholder leaves, a block of mixed dtypes, too few / too many leaves"""
+    rng = ctx.rng
+    jax, jnp, BA = env.jax, env.jnp, env.BlockArray
+    structs = [
+        {"tup": [{"blk": 2}, {"leaf": True}]},
+        {"tup": [{"leaf": True}, {"tup": [{"blk": 1}, {"blk": 3}]}, {"leaf": True}]},
+        {"blk": 2},
+        {"tup": [{"tup": []}, {"blk": 2}, {"tup": [{"tup": [{"blk": 2}]}]}]},
+        {"tup": [{"blk": 0}, {"leaf": True}]},
+    ]
+    counter = [0]
+
+    def build(sj, as_dict):
+        """real pytree with fresh float64 arrays as leaves"""
+        if "leaf" in sj:
+            counter[0] += 1
+            return jnp.full((2,), float(counter[0]))
+        if "blk" in sj:
+            out = []
+            for _ in range(sj["blk"]):
+                counter[0] += 1
+                out.append(jnp.full((counter[0] % 3 + 1,), float(counter[0])))
+            return BA(out)
+        kids = [build(c, not as_dict) for c in sj["tup"]]
+        return {f"k{i}": c for i, c in enumerate(kids)} if as_dict else tuple(kids)
+
+    def matches(mj, real, ev):
+        if "leaf" in mj:
+            return same_or_identical(ev.val(mj["leaf"]), real)
+        if "blk" in mj:
+            return isinstance(real, BA) and len(real.arrays) == len(mj["blk"]) and all(same_or_identical(ev.val(t), real.arrays[i]) for i, t in enumerate(mj["blk"]))
+        vals = list(real.values()) if isinstance(real, dict) else (list(real) if isinstance(real, tuple) else None)
+        return vals is not None and len(vals) == len(mj["tup"]) and all(matches(c, v, ev) for c, v in zip(mj["tup"], vals))
+
+    for si, sj in enumerate(structs):
+        for as_dict in (False, True):
+            t0 = build(sj, as_dict)
+            leaves0, treedef = jax.tree_util.tree_flatten(t0)
+            n = len(leaves0)
+            variants = [("same", list(leaves0)), ("doubled", [a * 2 for a in leaves0]), ("objects", [object() for _ in range(n)]),
+                        ("sds", [jax.ShapeDtypeStruct(a.shape, a.dtype) for a in leaves0]), ("ints", list(range(n))),
+                        ("too-few", list(leaves0[:-1]) if n else None), ("too-many", list(leaves0) + [jnp.zeros(1)])]
+            if n >= 2:
+                mixed = list(leaves0)
+                j = int(rng.integers(0, n))
+                mixed[j] = mixed[j].astype(jnp.float32)
+                variants.append(("one-float32", mixed))
+                ph = list(leaves0)
+                ph[int(rng.integers(0, n))] = "placeholder"
+                variants.append(("one-placeholder", ph))
+            for tag, leaves in variants:
+                if leaves is None:
+                    continue
+                atoms = {f"l{i}": v for i, v in enumerate(leaves)}
+                ev = Evaluator(atoms, env.resolve)
+                m = run2(model, "tree_unflatten", dict(struct=sj, leaves=[A(f"l{i}") for i in range(len(leaves))]), ev)
+                with warnings.catch_warnings():
+                    warnings.simplefilter("ignore")
+                    impl = impl_call(lambda: jax.tree_util.tree_unflatten(treedef, leaves), [], {})
+                ctx.case({"section": "trees", "struct": si, "dict": as_dict, "leaves": tag}, ("trees", si, as_dict, tag))
+                ctx.count(f"trees:{tag}:model={'err:' + m[1] if m[0] == 'err' else 'ok'}")
+                good = (m[0] == "err" and impl == ("err", m[1])) or (m[0] == "ok" and impl[0] == "ok" and matches(m[1], impl[1], ev))
+                if not good:
+                    def tree_oracle(c, impl=impl, leaves=leaves, n=n, tag=tag):
+                        # the property itself: the leaves come back from tree_leaves unchanged and in order
+                        if impl[0] != "ok":
+                            arrays_mixed = tag == "one-float32"
+                            return None if (len(leaves) != n or arrays_mixed) else {"call": "tree_unflatten(treedef, leaves)", "leaves": tag, "outcome": {"err": impl[1]}, "expected": "the tree with these leaves"}
+                        back = jax.tree_util.tree_leaves(impl[1], is_leaf=lambda z: z is None or isinstance(z, str))
+                        if len(back) != len(leaves) or any(not same_or_identical(a, b) for a, b in zip(back, leaves)):
+                            return {"call": "tree_leaves(tree_unflatten(treedef, leaves))", "leaves": tag, "returned": be.describe(back), "expected": "the leaves, unchanged and in order"}
+                        return None
+
+                    ctx.disagree("block.trees", {"section": "trees", "struct": sj, "dict": as_dict, "leaves": tag}, show_impl(impl) if impl[0] == "err" else be.describe(jax.tree_util.tree_leaves(impl[1])),
+                                 m[1] if m[0] == "err" else "model tree", oracle=tree_oracle)
+
+
 def correspond(ctx, model):
     import time
 
     env = Env()
     timing = {}
     for sec in (run_corpus, section_names, section_reductions, section_creation, section_operators, section_methods,
-                section_wrappers, section_pytree, section_transparency, section_setitem, section_random):
+                section_wrappers, section_pytree, section_transparency, section_trees, section_setitem, section_random):
         t0 = time.time()
         try:
             sec(env, ctx, model)
@@ -1599,16 +1697,6 @@ def findings(ctx, model):
         except Exception:  # noqa: BLE001
             still = True
         ctx.known_finding(KNOWN_TUPLE, still)
-    if ctx.is_known(KNOWN_FLATTEN):
-        jax = env.jax
-        x = env.BlockArray([env.jnp.ones((4, 3)), env.jnp.arange(4.0)])
-        still = False
-        for probe in (lambda: jax.vmap(lambda v: v * 2)(x), lambda: jax.hessian(lambda v: env.snp.sum(v * v * v))(x)):
-            try:
-                probe()
-            except Exception:  # noqa: BLE001
-                still = True
-        ctx.known_finding(KNOWN_FLATTEN, still)
     if ctx.is_known(KNOWN_RMOD):
         x = env.BlockArray([env.jnp.array([5.0, 7.0]), env.jnp.array(9.0)])
         try:
